@@ -9,8 +9,9 @@ _UNIT_MODULES = [
 
 UNITS = {}
 for m in _UNIT_MODULES:
-    u = importlib.import_module(m).UNIT
-    UNITS[u.name] = u
+    mod = importlib.import_module(m)
+    for u in getattr(mod, "UNITS", [mod.UNIT]):
+        UNITS[u.name] = u
 
 NUMBIGINT_TB = ["ASSUMED contracts of the external crate num-bigint 0.4 (units/_shared/num_bigint.rs): sign, bits (< 2^63), bit, set_bit, checked_add/sub/mul/div, %, <<, >>, unary -, & | ^ (bitwise axioms), From<i32/usize/u8>, TryFrom<&BigInt> for usize/u32, comparisons"]
 REPORT_TB = ["ASSUMED contracts of diagn::Report methods (units/contracts_report.py): error*/warning*/note*/message add one top-level message; push_parent*/pop_parent change only the parent stack"]
